@@ -206,6 +206,8 @@ def run_case(ctx, case):
 
 
 def _check_attrs(err, exp):
+    if type(err).__name__ != exp["error"]:
+        return None      # an accepted alternative class: its attributes are not specified by the fault
     a = exp.get("attrs", {})
     for k, v in a.items():
         got = getattr(err, k, None)
